@@ -355,7 +355,17 @@ def validate_before_decode(ctx):
 
     # ---- D4b: validate_cbor rejects the empty input and a declared length beyond the input
     R.rule("C17-D4b length pre-validation", 2, "empty input and over-long declared lengths are rejected before decoding")
-    vouts = Evaluator(repo, inline_depth=0).outcomes(va)
+    # the length decoder: SuitObject.decode_cbor_length, or the function it merely hands its arguments on to (moved elsewhere)
+    dcl = repo.func("suit_generator.suit.types.common", "SuitObject.decode_cbor_length")
+    decoders = {dcl.name: dcl}
+    body_ = [st_ for st_ in dcl.node.body if not (isinstance(st_, ast.Expr) and isinstance(st_.value, ast.Constant))]
+    if len(body_) == 1 and isinstance(body_[0], ast.Return) and isinstance(body_[0].value, ast.Call):
+        r_ = repo.resolve_expr(dcl.module, body_[0].value.func)
+        if r_ and r_[0] == "func":
+            decoders[r_[1].name] = r_[1]
+    ev_va = Evaluator(repo, inline_depth=0)
+    ev_va.never_inline = {f_.fq for f_ in decoders.values()}
+    vouts = ev_va.outcomes(va)
     params = [a.arg for a in va.node.args.args if a.arg not in ("cls", "self")]
     params = generic.sole_outcome(ctx, params, "validate_cbor: expected one data parameter")
     P = Sym("param:" + params[0])
@@ -373,7 +383,7 @@ def validate_before_decode(ctx):
             expected="len(cbstr) == 0 -> ValueError", found="no ValueError outcome is selected by the empty input")
     # scenario B: a header declaring more bytes than present / scenario C: exactly as many as present (must pass)
     dec = [s for o in vouts for c in o.conds for s in subterms(c) if isinstance(s, App) and s.op == "call" and isinstance(s.args[0], Ref)
-           and getattr(s.args[0].obj, "name", "") == "decode_cbor_length"]
+           and getattr(s.args[0].obj, "name", "") in decoders]
     if not dec:
         raise AnalysisError("validate_cbor: the declared length is not obtained from decode_cbor_length (unrecognised form)")
     excs = {s for o in vouts for c in o.conds for s in subterms(c) if isinstance(s, App) and s.op == "exc"}
